@@ -160,7 +160,7 @@ def enumerate_cases(tier, seed):
         transitions += tr
         for cells in tabs[:: 1 if tier != "quick" else 2]:
             k = len(cells)
-            for values in ([k - 1 - i for i in range(k)], [k - i for i in range(k)], [float(k - i) for i in range(k)]):
+            for values in ([k - 1 - i for i in range(k)], [k - i for i in range(k)], [float(k - i) for i in range(k)], [1e6 * (k - i) for i in range(k)]):
                 for od in ("float", "str"):
                     cfg = {"sort_by": "tschuprowt", "max_n_mod": 4, "min_freq": 0.05, "min_freq_mod": None, "output_dtype": od, "dropna": True}
                     cases.append({"type": "carver", "carver": carver, "kind": "ORD", "cells": [list(x) for x in cells], "nan": None, "dev": None, "cfg": cfg, "seed": seed, "values": values})
@@ -174,6 +174,12 @@ def enumerate_cases(tier, seed):
     for cells in carving_space.tables("binary", "ORD", tier, kmax=3)[0]:
         for cls in ("Discretizer", "QualitativeDiscretizer"):
             cases.append({"type": "disc", "cls": cls, "kind": "CAT", "cells": [list(c) for c in cells], "nan": None, "min_freq": 0.05, "target": "binary", "seed": seed, "companion": None, "vocabulary": True})
+    # continuous targets in [0, 1): the order of categorical modalities must follow the real-valued rates
+    tabs, tr = carving_space.tables("continuous", "CAT", tier, kmax=4)
+    for cells in tabs:
+        for od in ("float", "str"):
+            cfg = {"max_n_mod": 4, "min_freq": 0.05, "min_freq_mod": None, "output_dtype": od, "dropna": True}
+            cases.append({"type": "carver", "carver": "continuous", "kind": "CAT", "cells": [list(x) for x in cells], "nan": None, "dev": None, "cfg": cfg, "seed": seed, "yscale": 0.25})
     # MulticlassCarver (per-class columns f_<class>)
     for kind in ("ORD", "QNT", "CAT"):
         tabs, tr = carving_space.tables("multiclass", kind, tier, kmax=3)
